@@ -92,6 +92,11 @@ N1_BODIES_EXTRA = [
     (('sub', 1, (('op', 'X', 0, None),)), ('sub', 1, (('op', 'R', 1, None),)), ('op', 'X90', 2, ('FB', 0))),
     # a block without content
     (),
+    # three parallel leaves, the longest of them listed in the middle (under G resp. H)
+    (('op', 'X', 0, None), ('op', 'R', 1, None), ('op', 'P', 2, None)),
+    (('op', 'R', 1, None), ('op', 'X', 0, None), ('op', 'P', 2, None)),
+    # a wait on the flux channel only: the microwave gate on the same qubit runs next to it, not behind it
+    (('op', 'Wfl', 0, None), ('op', 'X', 0, None)),
 ]
 
 
